@@ -195,4 +195,18 @@ def writeOutputFile (comment fname version : List Char) (copyright : List (List 
       :: (comment ++ " This file is generated by Shroud ".toList ++ version ++ ". Do not edit.".toList)
       :: copyrightLines comment copyright ++ w.lines)
 
+/-! ### `_literal_lines`: user supplied lines are marked literal before they reach `write_lines` -/
+
+/-- `WrapperMixin._literal_lines` on one line: a line that starts with `@ ^ + -` or ends with `+` would be read as
+    a formatting directive, so it gets the literal marker `@`; preprocessor lines (`#`) are written as is anyway -/
+def protect (s : List Char) : List Char :=
+  match s with
+  | [] => s
+  | c :: _ =>
+    if c ≠ '#' ∧ (c = '@' ∨ c = '^' ∨ c = '+' ∨ c = '-' ∨ s.getLast? = some '+') then '@' :: s else s
+
+/-- the branches of `_create_splicer` and whether each passes its lines through `_literal_lines`
+    (force = declaration-level `splicer:`, user = splicer file / splicer_code, default = generated body) -/
+def modelSplicerBranches : List (String × Bool) := [("force", true), ("user", true), ("default", false)]
+
 end Shroud.Lines
